@@ -35,7 +35,7 @@ ASSUMPTIONS = [
     "the peer's long-term public key is a point of the curve; own public keys are [d]G, [r]G",
 ]
 RULE = ("seeded generator (VERIF_SEED): sessions (dA,dB,rA,rB,idA,idB,klen) emitted as an A line and a B line; scalars {1,2,n-2, random, leading-zero}; public points / shared point V with "
-        "leading-zero coordinates (31-byte X / Y scalars searched from the seed in all four positions, 30-byte ones hard-coded; shared point V: 5 + 5 sessions searched per round); sessions with special relations between long-term and ephemeral keys (d = +-xbar(R)r, dA = dB, rA = rB, R = +-P, cross-equal, tiny scalars); identities 0..8191 bytes (and 8192, 8193 -> error); klen {1..1024 classes, 0 -> error}; peer ephemeral off the curve / (0,0) / >= p / "
+        "leading-zero coordinates (31-byte X / Y scalars searched from the seed in all four positions, 30-byte ones hard-coded; shared point V: 5 + 5 sessions searched per round); sessions with special relations between long-term and ephemeral keys (d = +-xbar(R)r, dA = dB, rA = rB, R = +-P, cross-equal, tiny scalars); sparse scalars 2^e, 2^e +- 1, 3*2^e as long-term key, ephemeral scalar and as the exchange scalar t itself (quick: every other value, seed-dependent); identities 0..8191 bytes (and 8192, 8193 -> error); klen {1..1024 classes, 0 -> error}; peer ephemeral off the curve / (0,0) / >= p / "
         "(x+p,y); V infinite; small-x ephemerals (keXHat short path); corpus: GM/T 0003.5 Annex example, regression cases for ephemeral coordinates >= p. "
         "Non-trivial: every case; distinct = distinct case text")
 
